@@ -329,6 +329,23 @@ ROUND9 = {
  "C19": "Every uri also travels with a catch-all converter registered later on.",
  "C20": "The requests whose answer depends on the name server's listing also run against a name server on sqlite.",
 }
+ROUND10 = {
+ "C03": "The process-wide retry default differs from what each proxy is told.",
+ "C04": "The library's logging is on at DEBUG; every decoded value is rendered the way a detailed traceback renders a local variable; a proxy whose uri is a rebuilt URI with a proxy as host.",
+ "C07": "The raising object is a delegating wrapper; attributes with double-underscore names (what add_note() leaves).",
+ "C08": "A validator answer larger than the message size limit; a refusal reason that is not valid unicode.",
+ "C10": "The scripts' daemon validates the handshake; every other script's client sets a correlation id of its own.",
+ "C11": "A failing member whose traceback text (its cause's message) not every serializer can write.",
+ "C12": "The client-side pass keeps an unread streamed result in the variable that takes the next call's result.",
+ "C13": "Every other tracked resource is an empty container; a housekeeping run that raises is a verdict.",
+ "C14": "Every answer passes through one of the four serializers as a remote caller gets it; reading operations are asked twice and the first caller edits the uri it was handed.",
+ "C15": "Bounded lock waits in virtual time with a storage slower than the configured timeout; the real auto-cleaner's sweep as a third party of the histories.",
+ "C16": "Forced registration under the daemon's own id.",
+ "C18": "Refusal at a daemon on a Unix domain socket.",
+ "C20": "A method whose result is an iterator; a parameter with an empty value; a daemon that annotates its replies, with body chunks checked for type as a WSGI server does.",
+}
+for _k, _v in ROUND10.items():
+    ROUND9[_k] = (ROUND9[_k] + " " + _v) if _k in ROUND9 else _v
 for _k, _v in ROUND9.items():
     ROUND8[_k] = (ROUND8[_k] + " " + _v) if _k in ROUND8 else _v
 for _k, _v in ROUND8.items():
